@@ -8,18 +8,18 @@ TRUSTED = ["exact regime (rates 0, 1/2, 1, 3/2, 2, 5/2, 3, 4, 10 and half-intege
 THEOREM = 'Props/C05.list (period_costs_def, total_is_sum)'
 
 
-def kernel_case(rep, drv, spec):
-	py = simlib.run_py(spec)
+def kernel_case(rep, drv, spec, net_objs=None, stream='cost-kernel'):
+	py = simlib.run_py(spec, net_objs=net_objs)
 	for fl in simlib.spec_flags(spec):
 		rep.count(fl)
 	for l, nd in spec['nodes'].items():
 		rep.count('ht:' + ('None' if nd['ht'] is None else ('0' if nd['ht'] == '0' else 'pos')))
 	if 'error' in py:
-		rep.case('cost-kernel', spec, nontrivial=False)
-		rep.diff('cost-kernel', 'real simulator raised %s: %s' % (py['error'], py.get('msg')), spec, py={'tb': py.get('tb')}, oracle=True)
+		rep.case(stream, spec, nontrivial=False)
+		rep.diff(stream, 'real simulator raised %s: %s' % (py['error'], py.get('msg')), spec, py={'tb': py.get('tb')}, oracle=True)
 		return
 	req = simlib.model_request(spec, exo_from=py['trace'])
-	rep.case('cost-kernel', spec, nontrivial=any(n['tc'] != 0 for st in py['trace'] for n in st['nodes']))
+	rep.case(stream, spec, nontrivial=any(n['tc'] != 0 for st in py['trace'] for n in st['nodes']))
 	fails, tot = simlib.oracle_C05(spec, py['trace'])
 	if tot != py['total']:
 		fails.append('simulation() returned %s but the per-node per-period totals add up to %s' % (py['total'], tot))
@@ -38,8 +38,30 @@ def kernel_case(rep, drv, spec):
 			what = 'model kernel/implementation differ: ' + '; '.join(diffs[:3])
 		if fails:
 			what += ' | property predicate fails on the real code: ' + '; '.join(fails[:3])
-		rep.diff('cost-kernel', what, spec, py={'diffs': diffs[:10], 'predicate_failures': fails[:10]}, oracle=bool(fails),
+		rep.diff(stream, what, spec, py={'diffs': diffs[:10], 'predicate_failures': fails[:10]}, oracle=bool(fails),
 				 theorem=THEOREM if not diffs else None)
+	return py
+
+
+
+def rerun_case(rep, drv, spec, rng):
+	"""Object life cycle: simulate, change cost rates on the SAME network object, simulate again - the second run must be priced at
+	the rates in force when it runs."""
+	import copy
+	py = simlib.run_py(spec)
+	if 'error' in py:
+		return
+	spec2 = copy.deepcopy(spec)
+	rates = {'h': ['0', '1', '2', '1/2', '3'], 'p': ['0', '4', '10', '5/2'], 'ht': [None, '0', '3/2', '1'], 'rev': ['0', '3', '1']}
+	attr = {'h': 'local_holding_cost', 'p': 'stockout_cost', 'ht': 'in_transit_holding_cost', 'rev': 'revenue'}
+	for l in spec2['labels']:
+		nd = spec2['nodes'][str(l)]
+		for k in rates:
+			if rng.random() < .6:
+				nd[k] = rng.choice([v for v in rates[k] if v != nd[k]])
+				setattr(py['objs'][l], attr[k], simlib.num(nd[k]))
+	rep.count('rerun-after-rate-change')
+	kernel_case(rep, drv, spec2, net_objs=(py['net'], py['objs']), stream='cost-kernel(second run after changing rates)')
 
 
 def trials_case(rep, rng):
@@ -80,6 +102,8 @@ def run(rep, drv):
 	# cost functions together with disruptions (items held for disrupted customers enter the holding-cost function)
 	for k in range(600 if th else 80):
 		kernel_case(rep, drv, simlib.gen_spec(rng, th, {'pcostfn': .6, 'pdis': .7}))
+	for k in range(300 if th else 40):
+		rerun_case(rep, drv, simlib.gen_spec(rng, th, {'pcostfn': 0}), rng)
 	for k in range(60 if th else 12):
 		trials_case(rep, rng)
 
